@@ -676,6 +676,9 @@ inductive Ev where
   | unop (op : String) (a : Arg)
   | binop (op : String) (a b : Arg)
   | madd (a m c : Arg)
+  /-- `Sum3.new(a, b, c)` / `Sum4.new(a, b, c, d)` called directly (as `Mix` does) -/
+  | sum3 (a b c : Arg)
+  | sum4 (a b c d : Arg)
   /-- `cls.ar(bus, chans)` / `cls.kr(bus, chans)` of an `AbstractOut` class (Out, ReplaceOut);
       `auto`: the graph function picks `.ar` when the first channel is audio rate, else `.kr` -/
   | out (cls : String) (mode : OutMode) (bus : Arg) (chans : List Arg)
@@ -726,6 +729,10 @@ def runEv (env : Array (List Inp)) : Ev → M (List Inp)
     | _ => do
       let p ← pyArith "*" va vm
       pure [← pyArith "+" p vc]
+  | .sum3 a b c => do
+    pure [← mkSum3 (← resolve env a) (← resolve env b) (← resolve env c)]
+  | .sum4 a b c d => do
+    pure [← mkSum4 (← resolve env a) (← resolve env b) (← resolve env c) (← resolve env d)]
   | .out .. => throw .badProgram     -- handled by `runEv'`
   | .localbuf .. => throw .badProgram
 
